@@ -133,6 +133,8 @@ func checkC09(p *Prog, r *Report) {
 	r.rule("C09.L5", "every function that writes the encoder's next id into a header advances it by one modulo paws afterwards; the OOB sealer writes the reserved id and does not advance", 3)
 	r.rule("C09.L6", "in encode: one sealData per call; when the group is complete every path runs exactly one of {seal every parity shard, skipParity()}, the parity slice is shardCache[dataShards:], and the group counters are reset", 3)
 	r.rule("C09.L7", "every BlockCrypt.Encrypt / aeadCrypt.Seal in the output path (postProcess and the helpers it calls) is preceded on every path by fillRand on the nonce prefix of the same buffer, with no other encryption of that buffer in between", 3)
+	r.rule("C09.L11", "the frame is produced by one encryptor at a time: the CFB feedback registers of a cipher object (shared by all sessions of a listener, or by sessions given the same BlockCrypt) are read and written under its mutex only (= C14.L1 for blockCrypt.encbuf/decbuf) — interleaved encryptions leave datagrams whose checksum field does not match their bytes under independent decryption", 4)
+	r.rule("C09.L10", "every datagram is handed to the socket once: a batch write that may accept fewer messages than offered is continued at the first message not yet accepted (the queue is re-sliced by the returned count, or the next call starts at the running count) — restarting at message 0 emits the head of the batch again, byte for byte, nonce included", 1)
 	r.rule("C09.L9", "parity is computed over the zero-padded size-prefixed payloads: size prefix written before the copy into the group, tails cleared to maxSize, shards cut [payloadOffset:maxSize], maxSize per group (= C07.F2 encode side, C07.F6)", 6)
 	r.rule("C09.L8", "the entropy sources advance their state on every Read before producing output, inside their mutex", 2)
 	{
@@ -183,6 +185,27 @@ func checkC09(p *Prog, r *Report) {
 	checkTypePosition(p, r)
 	checkNonceBeforeEncrypt(p, r)
 	checkEntropyAdvance(p, r)
+	checkBatchWriteContinues(p, r)
+	{
+		key := "delegate:C14:" + r.curCfg
+		sub, _ := p.memo[key].(*Report)
+		if sub == nil {
+			sub = newReport("C14", r.Tier)
+			sub.curCfg = r.curCfg
+			checkC14(p, sub)
+			p.memo[key] = sub
+		}
+		for _, o := range sub.Obs {
+			if o.Rule != "C14.L1" || !(strings.Contains(o.Construct, "blockCrypt.encbuf") || strings.Contains(o.Construct, "blockCrypt.decbuf")) {
+				continue
+			}
+			if o.Status == Discharged {
+				r.ok("C09.L11", o.Func, o.Pos, o.Construct, o.Detail)
+			} else {
+				r.bad("C09.L11", o.Func, o.Pos, o.Construct, o.Detail, o.Witness)
+			}
+		}
+	}
 }
 
 func firstByteSliceParam(p *Prog, fi *FuncInfo) *types.Var {
@@ -1264,4 +1287,87 @@ func (p *Prog) producedUnderLock(fi *FuncInfo, tn string) (bool, string) {
 		}
 	}
 	return n > 0, ""
+}
+
+// checkBatchWriteContinues: C09.L10. For every X.WriteBatch(q, …) inside a loop with q a local slice and n its first
+// result: every path from the call back to the call passes `q = q[n:]` (or q is written q[k:] with k increased by n
+// on the way). Only present in configurations that have the batch path (linux); elsewhere the rule has no site.
+func checkBatchWriteContinues(p *Prog, r *Report) {
+	n := 0
+	for _, fi := range p.funcs {
+		if fi.Body == nil {
+			continue
+		}
+		c := p.CFG(fi)
+		inspectBody(fi, func(x ast.Node) bool {
+			as, ok := x.(*ast.AssignStmt)
+			if !ok || len(as.Rhs) != 1 || len(as.Lhs) < 1 {
+				return true
+			}
+			call, ok := ast.Unparen(as.Rhs[0]).(*ast.CallExpr)
+			if !ok || len(call.Args) == 0 {
+				return true
+			}
+			sel, ok := ast.Unparen(call.Fun).(*ast.SelectorExpr)
+			if !ok || sel.Sel.Name != "WriteBatch" {
+				return true
+			}
+			if enclosingLoop(p, call) == nil {
+				return true
+			}
+			cnt := identVar(p, as.Lhs[0])
+			n++
+			construct := exprString(call.Fun) + "(" + exprString(call.Args[0]) + ", …) in " + fi.Name
+			pt, okp := c.PointOf(as)
+			if cnt == nil || !okp {
+				r.bad("C09.L10", fi.Name, p.Pos(call), construct, "the count returned by the batch write is not bound to a local", "")
+				return true
+			}
+			arg := p.Term(call.Args[0])
+			var qv types.Object
+			var kv types.Object // running offset, for the q[k:] form
+			switch {
+			case arg.Op == "var":
+				qv = arg.Obj
+			case arg.Op == "slice" && arg.Args[0].Op == "var" && arg.Args[1] != nil && arg.Args[1].Op == "var" && arg.Args[2] == nil:
+				qv, kv = arg.Args[0].Obj, arg.Args[1].Obj
+			}
+			if qv == nil {
+				r.bad("C09.L10", fi.Name, p.Pos(call), construct, "the batch handed to WriteBatch is not a local slice (possibly re-sliced by a local offset): not followed", "")
+				return true
+			}
+			advances := func(nd ast.Node, _ Point) bool {
+				a2, ok := nd.(*ast.AssignStmt)
+				if !ok || len(a2.Lhs) != 1 || len(a2.Rhs) != 1 {
+					return false
+				}
+				lv := identVar(p, a2.Lhs[0])
+				rt := p.Term(a2.Rhs[0])
+				if kv == nil {
+					// q = q[n:]
+					return lv == qv && rt.Op == "slice" && rt.Args[0].Op == "var" && rt.Args[0].Obj == qv && rt.Args[1] != nil && rt.Args[1].Op == "var" && rt.Args[1].Obj == cnt && rt.Args[2] == nil
+				}
+				// k += n  /  k = k + n
+				if lv != kv {
+					return false
+				}
+				if a2.Tok == token.ADD_ASSIGN {
+					return rt.Op == "var" && rt.Obj == cnt
+				}
+				return a2.Tok == token.ASSIGN && Lin(rt).Equal(Lin(add(tVar(kv), tVar(cnt))))
+			}
+			res := c.FindPath(PathQuery{From: Point{pt.B, pt.I + 1}, IsBarrier: advances, IsTarget: func(_ ast.Node, q Point) bool { return q == pt }})
+			if res.Found {
+				r.bad("C09.L10", fi.Name, p.Pos(call), construct, "the loop can call WriteBatch again without advancing past the "+cnt.Name()+" messages the previous call accepted: after a short write the head of the batch is transmitted a second time — identical datagrams with the same nonce (and the same FEC ids) on the wire, while the tail may never be sent", c.DescribePath(res.Path))
+			} else {
+				r.ok("C09.L10", fi.Name, p.Pos(call), construct, "the batch is advanced by the returned count before the next call on every path")
+			}
+			return true
+		})
+	}
+	if n == 0 && p.Cfg.GOOS == "linux" {
+		r.bad("C09.L10", "transmit path", "-", "batch write", "no WriteBatch loop found in a linux configuration", "")
+	} else if n == 0 {
+		r.ok("C09.L10", "transmit path", "-", "batch write", "this configuration has no batch transmit path (one WriteTo per datagram)")
+	}
 }
